@@ -252,7 +252,7 @@ def run(ctx, chk, tier="quick"):
             chk.indeterminate("C04.O2", where_of(g, enclosing_stmt(probe)), "rate vector of unrecognised shape: %s" % desc[:100])
         else:
             chk.ob("C04.O2", align == "right", where_of(g, rdef), "rates = %s [%s-aligned]" % (desc, align),
-                   "element 0 = 0, element i = increment ending at sample i", key="classify_interstorms|rate-alignment",
+                   "element 0 is not a rate (0, never above a positive threshold), element i = increment ending at sample i", key="classify_interstorms|rate-alignment",
                    why="a left-aligned rate flags the sample before the jump instead of the one where the level arrived")
             if quotient is not None:
                 try:
@@ -482,12 +482,20 @@ def _rate_alignment(mod, flow, rdef, level, epoch):
         return "unknown", ast.unparse(rdef) if rdef is not None else "?", None
     a, b = rdef.args[0].elts
 
-    def is_zero1(n):
-        return isinstance(n, (ast.List, ast.Tuple)) and len(n.elts) == 1 and isinstance(n.elts[0], ast.Constant) and n.elts[0].value == 0
+    def const1(n):
+        """value of a one-element literal [c], else None"""
+        if isinstance(n, (ast.List, ast.Tuple)) and len(n.elts) == 1:
+            e = n.elts[0]
+            if isinstance(e, ast.Constant) and isinstance(e.value, (int, float)):
+                return e.value
+            if isinstance(e, ast.UnaryOp) and isinstance(e.op, ast.USub) and isinstance(e.operand, ast.Constant):
+                return -e.operand.value
+        return None
 
-    if is_zero1(a):
-        q, align = b, "right"
-    elif is_zero1(b):
+    ca, cb = const1(a), const1(b)
+    if ca is not None:
+        q, align = b, ("right" if ca <= 0 else "first-element-positive")
+    elif cb is not None:
         q, align = a, "left"
     else:
         return "unknown", ast.unparse(rdef), None
